@@ -132,3 +132,8 @@ func StorageWrites() int { return 0 }
 // AdvanceClock lets time pass: the engine advances its virtual clock by d nanoseconds,
 // the native build sleeps.
 func AdvanceClock(d int64) { sleepNs(d) }
+
+// DelayBound (engine only): from now on, when the running goroutine blocks or exits the oldest
+// enabled goroutine runs next, and at most n times per path another one is chosen (every such
+// deviation is explored). n < 0 removes the bound.
+func DelayBound(n int) {}
